@@ -71,6 +71,7 @@ type Exec struct {
 	onceAssumed  map[string]bool
 	ghostAfter   map[string]int
 	callOrd      map[*ast.CallExpr]int
+	caseTerms    []*Term
 }
 
 func NewExec(prog *Program, cs *ContractSet, unit *FuncUnit, uc *UnitContract) *Exec {
